@@ -2,6 +2,12 @@ package posix
 
 import (
 	"bytes"
+	"encoding/json"
+	"io"
+	"time"
+
+	"github.com/aws/aws-sdk-go-v2/service/s3"
+	"github.com/aws/aws-sdk-go-v2/service/s3/types"
 
 	"github.com/versity/versitygw/internal/zzvf"
 	"github.com/versity/versitygw/s3response"
@@ -19,4 +25,57 @@ func VfWorldWithObject(maxLen int) (*Posix, []byte) {
 	_, err := p.PutObject(vfCtx(), s3response.PutObjectInput{Bucket: vfStr("bkt"), Key: &key, Body: bytes.NewReader(body), ContentLength: &n})
 	zzvf.Assert(err == nil, "setup-object")
 	return p, body
+}
+
+// VfLockWorld builds a lock-enabled bucket "bkt" (versioning directory configured or not) holding object "k" = "D" under
+// the given protection (0 legal hold, 1 COMPLIANCE until far in the future, 2 GOVERNANCE likewise), a second object
+// "other" = "X" and a multipart upload for "k" with one stored part. It returns the backend, the version id of "k" ("" in
+// an unversioned bucket) and the upload id.
+func VfLockWorld(versioning bool, protection int) (p *Posix, versionID, uploadID string) {
+	vfWorld()
+	p = vfNewPosix(vfConfig{versioning: versioning})
+	ctx := vfCtxOf("root")
+	lockOn := true
+	zzvf.Assert(p.CreateBucket(ctx, &s3.CreateBucketInput{Bucket: vfStr("bkt"), ObjectLockEnabledForBucket: &lockOn}, vfACL("root")) == nil, "setup-create-bucket")
+	one := int64(1)
+	for _, kv := range [][2]string{{"k", "D"}, {"other", "X"}} {
+		k := kv[0]
+		out, err := p.PutObject(ctx, s3response.PutObjectInput{Bucket: vfStr("bkt"), Key: &k, Body: bytes.NewReader([]byte(kv[1])), ContentLength: &one})
+		zzvf.Assert(err == nil, "setup-object")
+		if k == "k" {
+			versionID = out.VersionID
+		}
+	}
+	switch protection {
+	case 0:
+		zzvf.Assert(p.PutObjectLegalHold(ctx, "bkt", "k", "", true) == nil, "setup-legal-hold")
+	default:
+		mode := types.ObjectLockRetentionModeCompliance
+		if protection == 2 {
+			mode = types.ObjectLockRetentionModeGovernance
+		}
+		until := time.Now().Add(1000 * time.Hour)
+		b, _ := json.Marshal(types.ObjectLockRetention{Mode: mode, RetainUntilDate: &until})
+		zzvf.Assert(p.PutObjectRetention(ctx, "bkt", "k", "", false, b) == nil, "setup-retention")
+	}
+	key := "k"
+	up, err := p.CreateMultipartUpload(ctx, s3response.CreateMultipartUploadInput{Bucket: vfStr("bkt"), Key: &key})
+	zzvf.Assert(err == nil, "setup-upload")
+	vfStorePart("bkt", "k", up.UploadId, 1, []byte("P"), 0, "e1")
+	return p, versionID, up.UploadId
+}
+
+// VfReadObject reads the named version of bkt/k ("" = the current object) through a fresh Posix value.
+func VfReadObject(versioning bool, versionID string) ([]byte, error) {
+	q := vfNewPosix(vfConfig{versioning: versioning})
+	key := "k"
+	in := &s3.GetObjectInput{Bucket: vfStr("bkt"), Key: &key, Range: vfStr("")}
+	if versionID != "" {
+		in.VersionId = &versionID
+	}
+	g, err := q.GetObject(vfCtx(), in)
+	if err != nil {
+		return nil, err
+	}
+	return io.ReadAll(g.Body)
 }
